@@ -575,12 +575,7 @@ func (i *Snapshot) ReadFrom(r io.Reader) (int64, error) {
 	br := bufio.NewReader(r)
 
 	// read bluge snapshot format version
-	peek, err := br.Peek(binary.MaxVarintLen64)
-	if err != nil && err != io.EOF {
-		return bytesRead, fmt.Errorf("error peeking snapshot format version %d: %w", i.epoch, err)
-	}
-	snapshotFormatVersion, n := binary.Uvarint(peek)
-	sz, err := br.Discard(n)
+	snapshotFormatVersion, sz, err := readUvarint(br)
 	if err != nil {
 		return bytesRead, fmt.Errorf("error reading snapshot format version %d: %w", i.epoch, err)
 	}
@@ -598,18 +593,13 @@ func (i *Snapshot) readFromVersion1(br *bufio.Reader) (int64, error) {
 	var bytesRead int64
 
 	// read number of segments
-	peek, err := br.Peek(binary.MaxVarintLen64)
-	if err != nil && err != io.EOF {
-		return bytesRead, fmt.Errorf("error peeking snapshot number of segments %d: %w", i.epoch, err)
-	}
-	numSegments, n := binary.Uvarint(peek)
-	sz, err := br.Discard(n)
+	numSegments, sz, err := readUvarint(br)
 	if err != nil {
 		return bytesRead, fmt.Errorf("error reading snapshot number of segments %d: %w", i.epoch, err)
 	}
 	bytesRead += int64(sz)
 
-	for j := 0; j < int(numSegments); j++ {
+	for j := uint64(0); j < numSegments; j++ {
 		segmentBytesRead, ss, err := i.readSegmentSnapshot(br)
 		if err != nil {
 			return bytesRead, err
@@ -642,12 +632,8 @@ func (i *Snapshot) readSegmentSnapshot(br *bufio.Reader) (bytesRead int64, ss *s
 	bytesRead += int64(sz)
 
 	// read segment id
-	peekSegmentID, err := br.Peek(binary.MaxVarintLen64)
-	if err != nil && err != io.EOF {
-		return bytesRead, nil, fmt.Errorf("error reading snapshot %d: %w", i.epoch, err)
-	}
-	segmentID, n := binary.Uvarint(peekSegmentID)
-	sz, err = br.Discard(n)
+	var segmentID uint64
+	segmentID, sz, err = readUvarint(br)
 	if err != nil {
 		return bytesRead, nil, fmt.Errorf("error reading snapshot %d: %w", i.epoch, err)
 	}
@@ -660,12 +646,8 @@ func (i *Snapshot) readSegmentSnapshot(br *bufio.Reader) (bytesRead int64, ss *s
 	}
 
 	// read size of deleted bitmap
-	peek, err := br.Peek(binary.MaxVarintLen64)
-	if err != nil && err != io.EOF {
-		return bytesRead, nil, fmt.Errorf("xerror reading snapshot %d: %w", i.epoch, err)
-	}
-	delLen, n := binary.Uvarint(peek)
-	sz, err = br.Discard(n)
+	var delLen uint64
+	delLen, sz, err = readUvarint(br)
 	if err != nil {
 		return bytesRead, nil, fmt.Errorf("error reading snapshot %d: %w", i.epoch, err)
 	}
@@ -694,12 +676,7 @@ func (i *Snapshot) readSegmentSnapshot(br *bufio.Reader) (bytesRead int64, ss *s
 }
 
 func readVarLenString(r *bufio.Reader) (n int, str string, err error) {
-	peek, err := r.Peek(binary.MaxVarintLen64)
-	if err != nil {
-		return n, "", err
-	}
-	strLen, uVarRead := binary.Uvarint(peek)
-	sz, err := r.Discard(uVarRead)
+	strLen, sz, err := readUvarint(r)
 	if err != nil {
 		return n, "", err
 	}
@@ -711,6 +688,21 @@ func readVarLenString(r *bufio.Reader) (n int, str string, err error) {
 	}
 	n += len(strBytes)
 	return n, string(strBytes), nil
+}
+
+// readUvarint reads one uvarint from r and reports how many bytes it took.
+// A missing, truncated or overflowing value is an error, never a silent zero.
+func readUvarint(r *bufio.Reader) (v uint64, n int, err error) {
+	peek, err := r.Peek(binary.MaxVarintLen64)
+	if err != nil && err != io.EOF {
+		return 0, 0, err
+	}
+	v, n = binary.Uvarint(peek)
+	if n <= 0 {
+		return 0, 0, io.ErrUnexpectedEOF
+	}
+	n, err = r.Discard(n)
+	return v, n, err
 }
 
 // readBytes reads exactly length bytes from r. The buffer grows with the
